@@ -1990,17 +1990,19 @@ class QuicConnection:
             for cid in self._peer_cid_available
             if cid.sequence_number >= self._peer_retire_prior_to
         ]
-        if (
-            sequence_number >= self._peer_retire_prior_to
-            and sequence_number not in self._peer_cid_sequence_numbers
-        ):
-            self._peer_cid_available.append(
-                QuicConnectionId(
-                    cid=connection_id,
-                    sequence_number=sequence_number,
-                    stateless_reset_token=stateless_reset_token,
-                )
+        if sequence_number not in self._peer_cid_sequence_numbers:
+            new_cid = QuicConnectionId(
+                cid=connection_id,
+                sequence_number=sequence_number,
+                stateless_reset_token=stateless_reset_token,
             )
+            if sequence_number >= self._peer_retire_prior_to:
+                self._peer_cid_available.append(new_cid)
+            else:
+                # A reordered frame issued a connection ID which the peer has
+                # already asked us to retire: retire it straight away, once
+                # (RFC 9000 section 19.15).
+                retire.append(new_cid)
             self._peer_cid_sequence_numbers.add(sequence_number)
 
         # retire previous CIDs
